@@ -52,6 +52,50 @@ def hostile_u64(rng):
     return rng.getrandbits(64)
 
 
+def wnaf_len(c, w=5):
+    n = 0
+    i = 0
+    while c:
+        if c & 1:
+            d = c & ((1 << w) - 1)
+            if d >= (1 << (w - 1)):
+                d -= 1 << w
+            c -= d
+            n = i + 1
+        c >>= 1
+        i += 1
+    return n
+
+
+def topcarry_k(rng, nn):
+    """k = c0/c1 mod n where one of |c0|, |c1| has the largest size a reduced pair can have *and* a width-5 NAF one digit longer
+    than its binary length (carry out of the top window); the other one is short so that the pair is (very likely) the
+    shortest vector. The interleaved multi-scalar loops must process that extra column."""
+    import math
+    maxc = math.isqrt(nn + (nn >> 3))
+    bl = maxc.bit_length()
+    for _ in range(2000):
+        c = rng.randrange(1 << (bl - 1), maxc + 1) | 1
+        if rng.randrange(2):
+            # force the pattern: top window 1xxx1 aligned on a position where the recoding is odd
+            c = (c & ~(0x1f << (bl - 5))) | (rng.choice([17, 19, 21, 23, 25, 27, 29, 31]) << (bl - 5))
+            if c > maxc:
+                continue
+        if wnaf_len(c) == c.bit_length() + 1:
+            break
+    else:
+        return None
+    small = rng.getrandbits(rng.choice([1, 20, 64, bl // 2, bl - 40])) | 1
+    sg = rng.choice([1, -1])
+    if rng.randrange(2):
+        c0, c1 = sg * small, c
+    else:
+        c0, c1 = sg * c, small
+    if math.gcd(c1, nn) != 1:
+        return None
+    return c0 * pow(c1, -1, nn) % nn
+
+
 def vh_pred(g, A, R, s, k):
     """the documented predicate of verify_helper_vartime"""
     if isinstance(g, EdG):
@@ -124,6 +168,10 @@ def gen_curve(rng, g, n):
             a = rng.randrange(nn)
             r = rng.randrange(nn)
             k, kc = c11.hostile_k(rng, nn) if rng.randrange(3) else c04.hostile_scalar(rng, g)
+            if rng.randrange(5) == 0:
+                tk = topcarry_k(rng, nn)
+                if tk is not None:
+                    k, kc = tk, "naf-carry-out-of-top-window"
             A = g.mulgen(a)
             R = g.mulgen(r)
             s = (r + k * a) % nn
@@ -219,7 +267,7 @@ def main(argv):
         for c in curves:
             req += [c + ":mamv", c + ":mamv:u=rational", c + ":mamv:u=zero", c + ":wnaf-single-digit"]
         for c in ("ed25519", "ed448", "p256", "secp256k1", "ristretto255", "decaf448"):
-            req += [c + ":vh:true", c + ":vh:false", c + ":vh:k=rational", c + ":vh:s-off-by-one"]
+            req += [c + ":vh:true", c + ":vh:false", c + ":vh:k=rational", c + ":vh:s-off-by-one", c + ":vh:k=naf-carry-out-of-top-window"]
         req += ["ed25519:vh:torsion-A-R", "ed448:vh:torsion-A-R", "jq255e:mul128:u>=2^128-64", "jq255s:mul128:u>=2^128-64",
                 "gls254:mul64mu:extreme-half"]
         rep.require(*req)
